@@ -1,7 +1,7 @@
 (* Proofs/HttpRouting.v -- the invariant of HttpLayer.get_connection / register_connection (C08).
    One induction over the nesting fuel proves, for both functions at once, that the invariant
-   "every waiting request matches the connection it waits on, that connection is handled by its own layer
-   stack, all object numbers in use are below the allocation counter" is preserved, that every reply carries a
+   (every waiting request matches the connection it waits on, that connection is handled by its own layer
+   stack, all object numbers in use are below the allocation counter) is preserved, that every reply carries a
    connection satisfying R / E, that the heap below the allocation counter is untouched.
    The section abstracts R (relation between a request and the connection it is answered with), E (health of a
    replied connection) and P (provenance of a request) so that the same proof serves the routing theorem
